@@ -5,6 +5,7 @@ import (
 	"bytes"
 	"context"
 	"fmt"
+	"io"
 	"math"
 	"net"
 	"net/http"
@@ -368,10 +369,18 @@ func post(path, enc string, body []byte) (code int, panicked string) {
 	if enc != "-" {
 		req.Header.Set("Content-Encoding", enc)
 	}
+	if chunked {
+		// Transfer-Encoding: chunked - the length of the body is not known in advance
+		req.ContentLength = -1
+		req.TransferEncoding = []string{"chunked"}
+		req.Body = io.NopCloser(bytes.NewReader(body))
+	}
 	w := httptest.NewRecorder()
 	router.ServeHTTP(w, req)
 	return w.Code, ""
 }
+
+var chunked bool
 
 func httpCase(body []byte) {
 	var z, l bytes.Buffer
@@ -454,6 +463,19 @@ func httpFamilies() {
 		for _, c := range alpha {
 			httpCase([]byte{c})
 		}
+		// the same small and valid bodies again, sent without a Content-Length
+		chunked = true
+		httpCase(nil)
+		for _, c1 := range alpha {
+			httpCase([]byte{c1})
+			for _, c2 := range alpha {
+				httpCase([]byte{c1, c2})
+			}
+		}
+		for _, g := range [][]byte{goodMetric, goodEvent} {
+			httpCase(g)
+		}
+		chunked = false
 		// every truncation of valid messages
 		for _, g := range [][]byte{goodMetric, goodEvent} {
 			for k := 0; k <= len(g); k++ {
